@@ -116,15 +116,42 @@ func (c *counters) sum() int64 {
 	return s
 }
 
+// safeWriter is goroutine safe; with failEvery = k its k-th, 2k-th, … Write fails (nothing is written)
 type safeWriter struct {
-	mu  sync.Mutex
-	buf bytes.Buffer
+	mu        sync.Mutex
+	buf       bytes.Buffer
+	failEvery int
+	calls     int
+	failed    int
 }
 
 func (s *safeWriter) Write(p []byte) (int, error) {
 	s.mu.Lock()
 	defer s.mu.Unlock()
+	s.calls++
+	if s.failEvery > 0 && s.calls%s.failEvery == 0 {
+		s.failed++
+		return 0, fmt.Errorf("disk full")
+	}
 	return s.buf.Write(p)
+}
+
+// faultyExtractor fails for requests that carry X-Bad (a user-supplied extractor may fail)
+func faultyExtractor() utils.SourceExtractor {
+	return utils.ExtractorFunc(func(q *http.Request) (string, int64, error) {
+		if q.Header.Get("X-Bad") != "" {
+			return "", 0, fmt.Errorf("cannot extract source")
+		}
+		return q.Header.Get("X-Src"), 1, nil
+	})
+}
+
+func reqMaybeBad(src string, j int) *http.Request {
+	q := req(src)
+	if j%101 == 100 {
+		q.Header.Set("X-Bad", "1")
+	}
+	return q
 }
 
 // fmtLogger formats its arguments like a real logger does (synchronously), and is itself thread safe
@@ -216,8 +243,15 @@ func stressRebalancer(c cfgT, r *result) {
 		rr, err := roundrobin.New(next, roundrobin.ErrorHandler(eh))
 		must(err)
 		opts := []roundrobin.RebalancerOption{roundrobin.RebalancerBackoff(time.Millisecond), roundrobin.RebalancerErrorHandler(eh)}
+		var meterCalls, meterFaults int64
 		if variant == "ready-meter" {
-			opts = append(opts, roundrobin.RebalancerMeter(func() (roundrobin.Meter, error) { return &safeMeter{}, nil }))
+			opts = append(opts, roundrobin.RebalancerMeter(func() (roundrobin.Meter, error) {
+				if k := atomic.AddInt64(&meterCalls, 1); k > 3 && k%5 == 0 {
+					atomic.AddInt64(&meterFaults, 1)
+					return nil, fmt.Errorf("no meter")
+				}
+				return &safeMeter{}, nil
+			}))
 		}
 		rb, err := roundrobin.NewRebalancer(rr, opts...)
 		must(err)
@@ -241,6 +275,9 @@ func stressRebalancer(c cfgT, r *result) {
 		w0, _ := rr.ServerWeight(su(0))
 		r.kv(variant+".requests", n)
 		r.kv(variant+".w0", w0)
+		if variant == "ready-meter" {
+			r.kv("meter-faults", atomic.LoadInt64(&meterFaults))
+		}
 	}
 }
 
@@ -273,7 +310,7 @@ func stressBreaker(inspect bool) func(c cfgT, r *result) {
 			w.WriteHeader(200)
 		})
 		fallback := http.HandlerFunc(func(w http.ResponseWriter, q *http.Request) { fb.inc("n"); w.WriteHeader(503) })
-		trip, stand := &effect{fail: inspect}, &effect{fail: inspect}
+		trip, stand := &effect{fail: true}, &effect{fail: true}
 		opts := []cbreaker.Option{cbreaker.FallbackDuration(2 * time.Millisecond), cbreaker.RecoveryDuration(2 * time.Millisecond),
 			cbreaker.CheckPeriod(time.Millisecond), cbreaker.OnTripped(trip), cbreaker.OnStandby(stand), cbreaker.Fallback(fallback)}
 		lg := &fmtLogger{}
@@ -305,8 +342,7 @@ func stressBreaker(inspect bool) func(c cfgT, r *result) {
 
 func stressRateLimit(c cfgT, r *result) {
 	hx.FreezeAt(0)
-	ex, err := utils.NewExtractor("request.header.X-Src")
-	must(err)
+	ex := faultyExtractor()
 	for _, capacity := range []int{0, 3} {
 		var ok, rej counters
 		next := http.HandlerFunc(func(w http.ResponseWriter, q *http.Request) { ok.inc(q.Header.Get("X-Src")); w.WriteHeader(200) })
@@ -314,14 +350,22 @@ func stressRateLimit(c cfgT, r *result) {
 		rates := ratelimit.NewRateSet()
 		must(rates.Add(time.Hour, 1, 100))
 		opts := []ratelimit.TokenLimiterOption{ratelimit.ErrorHandler(eh)}
+		var rateCalls int64
 		if capacity > 0 {
 			opts = append(opts, ratelimit.Capacity(capacity))
+			// a user-supplied rate extractor that fails now and then (the limiter falls back to the defaults)
+			opts = append(opts, ratelimit.ExtractRates(ratelimit.RateExtractorFunc(func(*http.Request) (*ratelimit.RateSet, error) {
+				if atomic.AddInt64(&rateCalls, 1)%7 == 0 {
+					return nil, fmt.Errorf("no rates")
+				}
+				return rates, nil
+			})))
 		}
 		tl, err := ratelimit.New(next, ex, rates, opts...)
 		must(err)
 		const sources = 8
 		n := hammer(c, func(w, j int) {
-			tl.ServeHTTP(httptest.NewRecorder(), req(fmt.Sprintf("src%d", (w+j)%sources)))
+			tl.ServeHTTP(httptest.NewRecorder(), reqMaybeBad(fmt.Sprintf("src%d", (w+j)%sources), j))
 		})
 		r.check(ok.sum()+rej.sum() == n, "cap=%d: requests=%d but admitted=%d + rejected=%d", capacity, n, ok.sum(), rej.sum())
 		if capacity == 0 && n >= 100*sources*4 {
@@ -393,8 +437,7 @@ func stressRateLimit(c cfgT, r *result) {
 // ---------------------------------------------------------------- connection limiter
 
 func stressConnLimit(c cfgT, r *result) {
-	ex, err := utils.NewExtractor("request.header.X-Src")
-	must(err)
+	ex := faultyExtractor()
 	const max = 4
 	var inflight [2]int64
 	var over, ok, rej int64
@@ -418,7 +461,7 @@ func stressConnLimit(c cfgT, r *result) {
 	cl, err := connlimit.New(next, ex, max, connlimit.ErrorHandler(eh))
 	must(err)
 	n := hammer(c, func(w, j int) {
-		q := req([]string{"a", "b"}[(w+j)%2])
+		q := reqMaybeBad([]string{"a", "b"}[(w+j)%2], j)
 		if j%17 == 0 {
 			q.Header.Set("X-Panic", "1")
 		}
@@ -464,9 +507,11 @@ func waitTimeout(wg *sync.WaitGroup, d time.Duration) {
 // ---------------------------------------------------------------- tracer
 
 func stressTrace(c cfgT, r *result) {
-	sw := &safeWriter{}
+	// the output writer fails every 97th write: the tracer must drop exactly those records and nothing else
+	sw := &safeWriter{failEvery: 97}
+	lg := &fmtLogger{}
 	next := http.HandlerFunc(func(w http.ResponseWriter, q *http.Request) { w.Header().Set("X-R", "1"); w.WriteHeader(200) })
-	t, err := trace.New(next, sw, trace.RequestHeaders("X-Src"), trace.ResponseHeaders("X-R"))
+	t, err := trace.New(next, sw, trace.RequestHeaders("X-Src"), trace.ResponseHeaders("X-R"), trace.Logger(lg))
 	must(err)
 	cc := c
 	cc.iters = c.iters / 2
@@ -478,8 +523,11 @@ func stressTrace(c cfgT, r *result) {
 			valid++
 		}
 	}
-	r.check(int64(valid) == n, "requests=%d but %d well-formed trace records", n, valid)
+	r.check(int64(sw.calls) == n, "requests=%d but the writer was called %d times (one Write per record expected)", n, sw.calls)
+	r.check(int64(valid) == n-int64(sw.failed), "requests=%d, failed writes=%d: want %d complete trace records, the writer received %d", n, sw.failed, n-int64(sw.failed), valid)
 	r.kv("requests", n)
+	r.kv("failed-writes", sw.failed)
+	r.kv("records", valid)
 }
 
 // ---------------------------------------------------------------- RTMetrics
@@ -630,8 +678,8 @@ func stressTTLMap(c cfgT, r *result) {
 
 func stressStack(c cfgT, r *result) {
 	var backend, rejected, tripped, lberr counters
-	ex, err := utils.NewExtractor("request.header.X-Src")
-	must(err)
+	ex := faultyExtractor()
+	var err error
 	h := http.HandlerFunc(func(w http.ResponseWriter, q *http.Request) {
 		backend.inc(q.URL.Host)
 		if q.URL.Host != "s0" && backend.get(q.URL.Host)%4 != 0 {
@@ -662,7 +710,7 @@ func stressStack(c cfgT, r *result) {
 	must(err)
 	bf, err := buffer.New(st, buffer.MemRequestBodyBytes(1<<16), buffer.MemResponseBodyBytes(1<<16))
 	must(err)
-	sw := &safeWriter{}
+	sw := &safeWriter{failEvery: 89}
 	top, err := trace.New(bf, sw)
 	must(err)
 	var answered int64
@@ -672,6 +720,9 @@ func stressStack(c cfgT, r *result) {
 		rec := httptest.NewRecorder()
 		q := httptest.NewRequest(http.MethodPost, "http://front/x", strings.NewReader("payload"))
 		q.Header.Set("X-Src", fmt.Sprintf("c%d", w%4))
+		if j%101 == 100 {
+			q.Header.Set("X-Bad", "1")
+		}
 		top.ServeHTTP(rec, q)
 		if rec.Code >= 200 {
 			atomic.AddInt64(&answered, 1)
@@ -688,7 +739,7 @@ func stressStack(c cfgT, r *result) {
 	r.check(answered == n, "requests=%d answered=%d", n, answered)
 	r.check(total == n, "requests=%d but backend=%d + rejected=%d + fallback=%d + lb-errors=%d", n, backend.sum(), rejected.sum(), tripped.sum(), lberr.sum())
 	lines := bytes.Count(sw.buf.Bytes(), []byte("\n"))
-	r.check(int64(lines) == n, "requests=%d but %d trace records", n, lines)
+	r.check(int64(lines) == n-int64(sw.failed), "requests=%d, failed writes=%d, but %d trace records", n, sw.failed, lines)
 	r.kv("requests", n)
 	r.kv("backend", backend.sum())
 	r.kv("fallback", tripped.sum())
